@@ -16,6 +16,7 @@ from socketserver import BaseRequestHandler, UDPServer
 from time import monotonic_ns as time_ns
 
 from . import lang
+from . import netascii # registers the 'netascii' codec used by TFTPClientState
 from .tools import BufferedTranscoder, format_address
 from .tftp import (
     TFTP_BINARY,
